@@ -31,6 +31,10 @@ POOL = {
     "glob_txt": ["glob", "*.txt"],
     "glob_dtxt": ["glob", "d/*.txt"],
     "glob_named": ["glob", "${*n}.txt"],
+    # a named wildcard whose substitution spans a separator: only the full regular expression, with
+    # the substitutions, matches r/1/2/out.txt
+    "glob_sub": ["glob", "r/${*d}/out.txt", {"d": "[0-9]/[0-9]"}],
+    "step7_out_r": ["step", "X7", {"out": ["r/1/2/out.txt"]}],
     "step1_out_a": ["step", "X1", {"out": ["a.txt"]}],
     "step2_out_a": ["step", "X2", {"out": ["a.txt"]}],
     "step1_out_b": ["step", "X1", {"out": ["b.txt"]}],
@@ -47,7 +51,7 @@ POOL = {
     "amend_vol_dnew": ["amend", {"vol": ["d/new.txt"]}],
     "amend_inp_b": ["amend", {"inp": ["b.txt"]}],
 }
-ON_DISK = ["a.txt", "d/x.txt", "d/y.txt", "e/z.txt", "D/x.txt"]
+ON_DISK = ["a.txt", "d/x.txt", "d/y.txt", "e/z.txt", "D/x.txt", "r/1/2/out.txt"]
 
 
 def project_for(a: str, b: str, two: bool) -> dict:
@@ -68,7 +72,7 @@ def project_for(a: str, b: str, two: bool) -> dict:
         scripts["./sub1.py"] = [["try", POOL[a]], ["try", POOL[b]]]
         sources["sub1.py"] = ["v1"]
     scripts["./plan.py"] = {"on": "plan.py", "versions": {"v1": plan}}
-    for x in ("X1", "X2", "X3", "X4", "X5", "X6", "X6b"):
+    for x in ("X1", "X2", "X3", "X4", "X5", "X6", "X6b", "X7"):
         scripts[x] = [["nop"]]
     return {"name": f"pair-{a}-{b}", "sources": sources, "scripts": scripts}
 
@@ -141,7 +145,7 @@ def exec_rerun(case: dict) -> dict:
     proj["scripts"]["./sub1.py"] = {"on": "sub1.py", "versions": {
         "v1": [["try", POOL[b]]], "v2": [["try", POOL[a]], ["try", POOL[b]]]}}
     # the declared outputs exist after the first build
-    for x in ("X1", "X2", "X3", "X4", "X5", "X6", "X6b"):
+    for x in ("X1", "X2", "X3", "X4", "X5", "X6", "X6b", "X7"):
         proj["scripts"][x] = [["read_declared"], ["write_declared"]]
     cfg = {"njob": 2, "keep_going": True, "defer_cap": 2}
     phases = [initial_phase(proj, cfg=cfg, seed=1), {"edits": [["set", "sub1.py", "v2"]], "how": "restart", "cfg": cfg, "seed": 2}]
@@ -149,6 +153,40 @@ def exec_rerun(case: dict) -> dict:
     tid = case["tid"]
     return {"tid": tid, "rels": [], "traces": [(tid, tlc.export_trace(tid, out["events"]))],
             "replay": {"tid": tid, "project": proj, "phases": phases}}
+
+
+REDECLARE = [
+    # (first declaration of R1, its second declaration, the other step R2): R1 gains a path that R2 claims
+    ({"out": ["a.txt"]}, {"out": ["a.txt"], "vol": ["log.txt"]}, {"vol": ["log.txt"]}),
+    ({"out": ["a.txt"]}, {"out": ["a.txt"], "vol": ["log.txt"]}, {"out": ["log.txt"]}),
+    ({"out": ["a.txt"], "vol": ["v.txt"]}, {"out": ["a.txt"], "vol": ["v.txt", "log.txt"]}, {"vol": ["log.txt"]}),
+    ({"out": ["a.txt"]}, {"out": ["a.txt", "log.txt"]}, {"vol": ["log.txt"]}),
+    ({"inp": ["e/z.txt"], "out": ["a.txt"]}, {"inp": ["e/z.txt"], "out": ["a.txt"], "vol": ["d/y.txt"]}, {"vol": ["d/y.txt"]}),
+]
+
+
+def exec_redeclare(case: dict) -> dict:
+    """A creator defines R1 and R2; it is rerun and declares R1 with an additional path that R2 claims
+    (in both orders of the two definitions).  Whatever is accepted must own what it declares."""
+    d1, d2, other = REDECLARE[case["k"]]
+    proj = project_for("static_a", "static_c", False)
+    proj["sources"]["sub1.py"] = ["v1", "v2"]
+    first = [["static", ["e/z.txt"]], ["try", ["step", "R1", d1]], ["try", ["step", "R2", other]]]
+    second = [["static", ["e/z.txt"]]] + ([["try", ["step", "R1", d2]], ["try", ["step", "R2", other]]] if case["r1_first"]
+                                          else [["try", ["step", "R2", other]], ["try", ["step", "R1", d2]]])
+    proj["scripts"]["./sub1.py"] = {"on": "sub1.py", "versions": {"v1": first, "v2": second}}
+    for x in ("R1", "R2"):
+        proj["scripts"][x] = [["read_declared"], ["write_declared"]]
+    cfg = {"njob": 2, "keep_going": True, "defer_cap": 2}
+    phases = [initial_phase(proj, cfg=cfg, seed=1), {"edits": [["set", "sub1.py", "v2"]], "how": "restart", "cfg": cfg, "seed": 2}]
+    out = run_history(proj, phases)
+    tid = case["tid"]
+    return {"tid": tid, "rels": [], "traces": [(tid, tlc.export_trace(tid, out["events"]))],
+            "replay": {"tid": tid, "project": proj, "phases": phases}}
+
+
+def redeclare_cases():
+    return [{"tid": f"rd-{k}-{int(f)}", "k": k, "r1_first": f} for k in range(len(REDECLARE)) for f in (True, False)]
 
 
 def rerun_cases():
